@@ -11,12 +11,13 @@ open StunVerif
     sequence: everything up to and including the first integrity attribute, then a
     MESSAGE-INTEGRITY-SHA256 directly following a MESSAGE-INTEGRITY, then the FINGERPRINT -/
 theorem iter_eq_exposed (m : Msg) : m.iter = Spec.exposed m.allAttrs := by
-  sorry
+  exact iterGo_eq_exposed _ _
 
 /-- the FINGERPRINT of an accepted message is always exposed -/
 theorem fp_always_exposed (b : Bytes) (m : Msg) (h : msgFromBytes b = .ok m)
     (a : RawAttr) (ha : a ∈ m.allAttrs) (hf : a.ty = tyFP) : a ∈ m.iter := by
-  sorry
+  rw [iter_eq_exposed]
+  exact fp_mem_exposed _ a ha hf
 
 /-- every attribute before the first integrity attribute, and that attribute itself, is exposed -/
 theorem prefix_exposed (as pre : List RawAttr) (i : RawAttr) (rest : List RawAttr)
@@ -24,7 +25,8 @@ theorem prefix_exposed (as pre : List RawAttr) (i : RawAttr) (rest : List RawAtt
     (hi : Spec.isIntegrity i.ty = true) :
     ∃ tail, Spec.exposed as = pre ++ i :: tail ∧
       ∀ a ∈ tail, a.ty = tyFP ∨ (a.ty = tyMI256 ∧ i.ty = tyMI ∧ rest.head? = some a) := by
-  sorry
+  subst h
+  exact exposed_append_int pre i rest hpre hi
 
 /-- nothing else located after an integrity attribute is ever exposed: in particular no ordinary
     attribute -/
@@ -32,12 +34,19 @@ theorem nothing_else (as pre : List RawAttr) (i : RawAttr) (rest : List RawAttr)
     (h : as = pre ++ i :: rest) (hpre : ∀ a ∈ pre, Spec.isIntegrity a.ty = false)
     (hi : Spec.isIntegrity i.ty = true) (a : RawAttr)
     (ha : a ∈ (Spec.exposed as).drop (pre.length + 1)) : Spec.isEnding a.ty = true := by
-  sorry
+  subst h
+  obtain ⟨tail, h1, h2⟩ := exposed_append_int pre i rest hpre hi
+  rw [h1] at ha
+  have hd : (pre ++ i :: tail).drop (pre.length + 1) = tail := by
+    rw [show pre ++ i :: tail = (pre ++ [i]) ++ tail by simp]
+    exact List.drop_left' (by simp)
+  rw [hd] at ha
+  rcases h2 a ha with h | ⟨h, _, _⟩ <;> simp [Spec.isEnding, h]
 
 /-- without an integrity attribute everything is exposed -/
 theorem all_exposed_without_integrity (as : List RawAttr)
     (h : ∀ a ∈ as, Spec.isIntegrity a.ty = false) : Spec.exposed as = as := by
-  sorry
+  exact exposed_no_int as h
 
 /-- replacing what follows the first integrity attribute never changes the exposed attributes
     before it (nor the integrity attribute itself) -/
@@ -45,7 +54,13 @@ theorem suffix_independent (pre : List RawAttr) (i : RawAttr) (rest rest' : List
     (hpre : ∀ a ∈ pre, Spec.isIntegrity a.ty = false) (hi : Spec.isIntegrity i.ty = true) :
     (Spec.exposed (pre ++ i :: rest)).take (pre.length + 1) =
     (Spec.exposed (pre ++ i :: rest')).take (pre.length + 1) := by
-  sorry
+  obtain ⟨tail, h1, _⟩ := exposed_append_int pre i rest hpre hi
+  obtain ⟨tail', h1', _⟩ := exposed_append_int pre i rest' hpre hi
+  have ht : ∀ tl : List RawAttr, (pre ++ i :: tl).take (pre.length + 1) = pre ++ [i] := by
+    intro tl
+    rw [show pre ++ i :: tl = (pre ++ [i]) ++ tl by simp]
+    exact List.take_left' (by simp)
+  rw [h1, h1', ht, ht]
 
 /-! Non-vacuity: [SOFTWARE, MI, MI-SHA256, FP] exposes all four; [MI-SHA256, MI, SOFTWARE?]. -/
 example :
